@@ -35,11 +35,46 @@ def run(ctx):
     ctx.extra["socket_type_pairs_v3"] = len(allp.replays)
     ctx.extra["socket_type_pairs_v2"] = len(v2.replays)
     el.selftest(ctx, "peer", sim.replays)
+    inproc_verdicts(ctx, allp.replays)
     ctx.assumptions += [
         "ENC stands for CURVE and Noise_XX (both are replayed); cryptographic primitives are trusted",
         "a closed side takes the transport down (EOF at the peer) - modelled by the Eof actions",
         "inproc verdict: see known_findings (C05-b) - inproc keeps its own, narrower table",
     ]
+
+
+def inproc_verdicts(ctx, behaviours):
+    """The verdict of Peer.tla for every pair of the eight rzmq socket types, against what two real
+    sockets do over inproc (connect() reports the refusal) and - for the pairs inproc refuses - over tcp."""
+    from props import socklib as S
+    real = ["PUB", "SUB", "REQ", "REP", "DEALER", "ROUTER", "PUSH", "PULL"]
+    model = {}
+    for b in behaviours:
+        a, c = b["cfgA"]["st"], b["cfgB"]["st"]
+        if a in real and c in real and b["cfgA"]["mech"] == "NULL" and b["cfgB"]["mech"] == "NULL":
+            model[(a, c)] = any(x.get("a") == "hc" for st in b["steps"] for x in st.get("app", []))
+    socks, ops = [], []
+    for i, (a, c) in enumerate(sorted(model)):
+        socks += [{"name": "c%d" % i, "type": a, "opts": []}, {"name": "b%d" % i, "type": c, "opts": []}]
+        ops += [{"op": "bind", "sock": "b%d" % i, "ep": "inproc://verif_c05_%d" % i}, {"op": "connect", "sock": "c%d" % i, "ep": "inproc://verif_c05_%d" % i}]
+    sc = {"name": "inproc-verdicts", "deadline_ms": 60000, "sockets": socks, "tasks": [{"name": "t", "ops": ops + [{"op": "sleep", "ms": 300}]}]}
+    r = S.run_scenarios(ctx, [sc], "c05_inproc", timeout=300)[0]
+    res = {x["sock"]: x["res"] for x in S.rets(r, "connect")}
+    diff = 0
+    for i, (a, c) in enumerate(sorted(model)):
+        got = res.get("c%d" % i)
+        if got is None:
+            continue
+        ok = got == "ok"
+        if ok != model[(a, c)]:
+            diff += 1
+            ctx.violation("C05:inproc-table:%s-%s" % (a, c), "%s connecting to a bound %s: over ZMTP (Peer.tla, replayed on the real engines) the pair %s, over inproc connect() returns %s" % (
+                a, c, "completes the handshake" if model[(a, c)] else "is refused", got),
+                {"kind": "recorded-trace", "scenario": "inproc connect %s -> %s" % (a, c), "result": got})
+    ctx.extra["inproc_pairs_compared"] = len(model)
+    ctx.extra["inproc_pairs_differing"] = diff
+    if r["panics"]:
+        ctx.violation("C05:panic:inproc", "panic: %s" % r["panics"][0], {"kind": "recorded-trace", "scenario": "inproc verdicts"})
 
 
 def replay(path):
